@@ -340,19 +340,23 @@ def b_regbridge(case, rng, P):
     aw = rng.randint(2, 10)
     b = csr.Builder(addr_width=aw, data_width=dw, granularity=rng.choice([8, dw]) if dw % 8 == 0 else dw)
     hist = []
+    # names that are legal and distinct for the memory map but look alike once formatted (an integer index next to
+    # the same digits as a string, a part containing the separator, the names the bridge uses for its own parts)
+    tricky = rng.random() < 0.3
+    P["tricky_names"] = tricky
 
     def add(depth):
         for _ in range(rng.randint(1, 3)):
             x = rng.random()
             if depth < 3 and x < 0.25:
-                nm = rng.choice(["blk", "grp"])
+                nm = rng.choice(["blk", "grp"]) + str(len(hist)) if not tricky else rng.choice(["ch", "ch__1", "a", "a__b", "1"])
                 hist.append(("cluster", nm))
-                with b.Cluster(nm + str(len(hist))):
+                with b.Cluster(nm):
                     add(depth + 1)
             elif depth < 3 and x < 0.5:
                 i = rng.randint(0, 3)
                 hist.append(("index", i))
-                with b.Cluster("arr" + str(len(hist))):
+                with b.Cluster("arr" + str(len(hist)) if not tricky else rng.choice(["ch", "a"])):
                     with b.Index(i):
                         add(depth + 1)
             else:
@@ -361,7 +365,13 @@ def b_regbridge(case, rng, P):
                 acc = {"R": "r", "W": "w"}.get(kind.__name__, "rw")
                 reg = csr.Register({"f": csr.Field(kind, w)}, access=acc)
                 hist.append(("reg", w, kind.__name__))
-                b.add(f"r{len(hist)}", reg)
+                name = f"r{len(hist)}" if not tricky else rng.choice(["x", "mux", "bus", "b__x", "1__x", "1", "ch__1", "b"])
+                try:
+                    b.add(name, reg)
+                except ValueError as e:
+                    if not tricky:
+                        raise
+                    P.setdefault("refused_adds", []).append(judge_exception(e))
 
     add(0)
     P.update(aw=aw, dw=dw, history=hist[:20])
